@@ -73,6 +73,19 @@ class ReusedParser:
             if entry != self.entry:
                 self.p.set_entrypoint_cell(m['Cell'](*entry))
                 self.entry = entry
+            self._excel = excel
+            return self.p.get_translation()
+        finally:
+            Excel.parse = orig
+
+    def ask_again(self):
+        """get_translation() once more, nothing changed in between"""
+        m = mods()
+        Excel = m['Excel']
+        orig = Excel.__dict__['parse']
+        excel = self._excel
+        Excel.parse = classmethod(lambda cls, path: excel)
+        try:
             return self.p.get_translation()
         finally:
             Excel.parse = orig
@@ -118,8 +131,9 @@ def abstract_instance():
     return _cache['abs']
 
 
-def write_xlsx(path, sheets):
-    """Full path: a real .xlsx via openpyxl. sheets as in make_excel (None cells are skipped)."""
+def write_xlsx(path, sheets, chartsheets=()):
+    """Full path: a real .xlsx via openpyxl. sheets as in make_excel (None cells are skipped).
+    chartsheets: (position among all tabs, title) of chart sheets to insert - tabs that are not worksheets."""
     from openpyxl import Workbook
     wb = Workbook()
     wb.remove(wb.active)
@@ -129,6 +143,10 @@ def write_xlsx(path, sheets):
             for c, v in enumerate(row, 1):
                 if v is not None:
                     ws.cell(row=r, column=c, value=v)
+    for index, title in chartsheets:
+        from openpyxl.chart import BarChart
+        cs = wb.create_chartsheet(title, index)
+        cs.add_chart(BarChart())
     wb.save(path)
 
 
